@@ -15,7 +15,7 @@ def run(tier, seed):
         m = len(r["obj"]["graph"]["edges"])
         fs = [FORMS[(seed + r["id"]) % len(FORMS)]] if tier == "quick" else FORMS
         for f in fs:
-            jobs += GC.split_patterns({"family": "acyclic", "obj": r["obj"], "id": r["id"], "form": f, "nflags": m,
+            jobs += GC.split_patterns({"family": "acyclic", "obj": r["obj"], "id": r["id"], "flip": GC.flip_of(seed, r["id"]), "form": f, "nflags": m,
                                        "patterns": list(range(2 ** m)), "expects": r["forest"]})
     run_family(chk, jobs, lambda j: "active_edges_acyclic")
     chk.sample({"obj": recs[-3]["obj"], "forest": recs[-3]["forest"][:16]})
